@@ -387,6 +387,10 @@ result_t DateTimeDataType::readSymbols(size_t offset, size_t length, const Symbo
         break;
 
       case 1:  // time only
+        if (length == 1 && m_bitCount < 8) {
+          // only the own bits count (the remaining bits of the byte may belong to another field)
+          symbol = (symbol_t)(symbol & ((1 << m_bitCount) - 1));
+        }
         if (!hasFlag(REQ) && symbol == m_replacement) {
           if (length == 1) {  // truncated time
             *output << NULL_VALUE << ":" << NULL_VALUE;
@@ -649,7 +653,11 @@ result_t DateTimeDataType::writeSymbols(size_t offset, size_t length, istringstr
       if (value > 0xff) {
         return RESULT_ERR_OUT_OF_RANGE;  // value out of range
       }
-      output->dataAt(offset + index) = (symbol_t)value;
+      if ((m_bitCount % 8) != 0 && offset + index < output->getCalculatedDataSize()) {
+        output->dataAt(offset + index) |= (symbol_t)value;  // keep the bits of a field sharing the byte
+      } else {
+        output->dataAt(offset + index) = (symbol_t)value;
+      }
     }
   }
 
